@@ -209,6 +209,9 @@ def main(argv):
         return 2
     if argv[0] == 'simfs':
         return cmd_simfs(argv[1:])
+    if argv[0] == 'determinism-dump':
+        import selftest_more
+        return selftest_more.cmd_determinism_dump(argv[1:])
     if argv[0] == 'determinism':
         import selftest_more
         return selftest_more.cmd_determinism(argv[1:])
